@@ -10,14 +10,17 @@ E2_NOTE = ("Trusted base: the MIR interpreter and its models of std/tai_time cal
 
 
 def fill(claim, na):
-    claim("C20", "E1 kani-overlay",
-          "bounded model checking (Kani/CBMC) of the real PriorityQueue over all operation shapes up to the bound with symbolic keys",
-          "For every insert/pull sequence up to the stated length (peek checked after every operation) and every key/value, "
-          "the real PriorityQueue<(u8,u8),u8> agrees with a reference model (least key, FIFO among equal keys). Bounded: "
-          "sequence length and the (u8,u8) key instantiation; decided by CBMC's SAT back end over the compiled code, unwinding assertions on.",
-          "Trusted: the reference model in harness/kani/c20.rs, Kani's translation of Rust/std (BinaryHeap is the real std code), "
-          "no allocation failure. Not decided yet: the indexed queue (IndexedPriorityQueue) — CBMC needs >200 s per 6-operation shape; "
-          "it is being moved to the MIR engine.",
+    claim("C20", "E1 kani-overlay + E2 mirse",
+          "Kani/CBMC bounded model checking of the real PriorityQueue on the real std BinaryHeap (all insert/pull shapes up to the bound, "
+          "symbolic keys) + MIR symbolic execution (mirse, z3) of PriorityQueue and IndexedPriorityQueue over symbolic operation sequences "
+          "with symbolic keys and a symbolic starting epoch counter",
+          "Both queues return the entry with the least key, FIFO among equal keys, from ANY value of the epoch counter (so also across the "
+          "2^32/2^64 boundaries no run can reach); an InsertKey removes exactly the entry it was issued for and nothing once that entry is "
+          "gone, even after its slab slot was re-used; forged (index, epoch) pairs remove nothing; keys are never issued twice. Bounded: "
+          "sequence length; decided by CBMC (part A) and z3 (part B).",
+          "Trusted: the reference model in harness/kani/c20.rs, Kani's translation of Rust/std, the MIR interpreter and its Vec/BinaryHeap "
+          "models (BinaryHeap specified as 'a maximal element by the element's own partial_cmp'; the real heap is exercised by part A). "
+          "Counterexamples are replayed natively (Kani playback / a cfg(test) module appended to the overlay).",
           "DESIGN.md §5 C20")
     claim("C01", "E2 mirse", E2_TECH,
           "For every enumerated script of scheduling and stepping commands and EVERY value of the start time, deadlines, periods and targets, "
@@ -54,8 +57,36 @@ def fill(claim, na):
           "decrease; a lag above the (symbolic) tolerance fails the call with OutOfSync before model code of that time runs; without a "
           "tolerance lags are ignored — for every scripted clock answer sequence up to length 3.",
           E2_NOTE + " SimInit::init's synchronize(start time) is outside the driver-logic world.", "DESIGN.md §5 C18")
+    K_TECH = ("bounded model checking with Kani/CBMC of #[kani::proof] harnesses compiled inside an overlay copy of the real crate: one "
+              "handle operation from an arbitrary (symbolic) task state word satisfying the representation invariant; counterexamples "
+              "replayed natively with Kani's concrete playback")
+    K_NOTE = ("Trusted: the representation invariant and drop-counting future/output in harness/kani/c13.rs, Kani's translation of Rust and "
+              "its sequential semantics of atomics (interleavings only where an operation is injected: between operations and inside poll), "
+              "read-only accessors appended under cfg(kani) in the overlay. Bounded: wake count 0..3, surplus references 0..2, one task. "
+              "NOT decided: C11 memory orderings, work stealing, the multi-threaded worker loop.")
+    claim("C13", "E1 kani-overlay", K_TECH,
+          "Inductive step: from every state of the task word that the phase table allows (Polling idle/scheduled, Completed, Wind-down, "
+          "Closed; symbolic wake/reference counts) each handle operation (Runnable run/drop, Waker clone/wake/wake_by_ref/drop, "
+          "CancelToken cancel/drop, Promise poll/drop, also injected inside poll) keeps the invariant, polls at most once at a time and "
+          "never after completion/cancellation, re-polls after a wake during poll, and releases future/output exactly once (CBMC's "
+          "pointer checks catch use-after-free/double free).", K_NOTE, "DESIGN.md §5 C13")
+    claim("C05", "E1 kani-overlay", K_TECH,
+          "Task-layer core of model isolation: a second Runnable is never created while one exists, a wake during poll leads to a re-poll "
+          "by the same Runnable, polls never overlap (checked by a ghost flag inside the future), from every symbolic task state.",
+          K_NOTE + " The two type-system facts (one task owns model+receiver; recv awaits the handler) are not checked.", "DESIGN.md §5 C05")
+    claim("C19", "E1 kani-overlay", K_TECH,
+          "Task-layer obligations of dropping an executor: cancel / Runnable drop / handle drops from every symbolic task state release the "
+          "future and the output exactly once, a wake issued after cancellation schedules nothing, the last owner frees the task.",
+          K_NOTE + " Joining worker threads, undelivered messages in mailboxes and the whole-simulation accounting are NOT decided.",
+          "DESIGN.md §5 C19")
+    claim("C17", "E2 mirse", E2_TECH,
+          "Every sequence of N operations over {write(v), next, open, close} (+ full drain) on the real EventBuffer<u8>/EventSlot<u8> code, "
+          "with every written value and the buffer capacity symbolic, agrees with the reference (FIFO, overflow keeps the `capacity` most "
+          "recent, slot yields the latest once, closed sinks ignore writes).",
+          "Trusted: MIR interpreter + models of VecDeque/Mutex/Arc/AtomicBool (sequential). Counterexamples are replayed through the public "
+          "sink API. Not decided: end-to-end order from a model's output to the sink (coroutine), concurrent writers.", "DESIGN.md §5 C17")
     pending = "check not built yet in this round (planned, see DESIGN.md §5); not claimed until it runs"
-    for p in ["C02", "C03", "C05", "C06", "C12", "C13", "C14", "C15", "C17", "C19"]:
+    for p in ["C02", "C03", "C06", "C12", "C14", "C15"]:
         na(p, pending)
     na("C04", "The property is about the multi-threaded executor's idle/park hand-off on real threads (st3, parking); Kani has no "
               "threads and the MIR engine has no model of blocking primitives; the single-threaded remainder would not justify the claim.")
